@@ -124,7 +124,7 @@ def r17_scoping(ctx):
     ctx.fn(load)
     ctx.fn(save)
     mc, mcw, mcfns = _mc(ctx)
-    initial = ctx.f.table(META, '_charset')
+    initial = 'latin1'
     o, mbytes = ctx.p.lookup_method(ctx.p.cls(META, 'MetaMessage'), 'bytes')
     n = 0
     # (the default charset is a charset like any other: a file that says latin1 is written and read as latin1, not as a
@@ -134,23 +134,27 @@ def r17_scoping(ctx):
             n += 1
             holder = {}
 
+            afters = []
+
             def thunk():
                 ai.global_store.pop(KEY, None)
                 mf = _mf(ctx, ai, charset)
-                ai.call_function(load, [mf, AFile(stream=list(stream), name='in')], {})
+                _then_observe(ctx, ai, afters, lambda: ai.call_function(load, [mf, AFile(stream=list(stream), name='in')], {}))
                 return mf
             outs = ai.explore(thunk)
-            _judge(ctx, ai, outs, f'load({label}, charset={charset})', load, mc, charset, initial, expect, mbytes)
+            _judge(ctx, ai, outs, f'load({label}, charset={charset})', load, mc, charset, afters, expect, mbytes)
         for label, (factory, expect) in save_tracks(ctx, ai).items():
             n += 1
+
+            afters = []
 
             def thunk_s():
                 ai.global_store.pop(KEY, None)
                 mf = _mf(ctx, ai, charset, AList([AList(factory(), 'MidiTrack')], 'list'))
-                ai.call_function(save, [mf, AFile(name='out')], {})
+                _then_observe(ctx, ai, afters, lambda: ai.call_function(save, [mf, AFile(name='out')], {}))
                 return mf
             outs = ai.explore(thunk_s)
-            _judge(ctx, ai, outs, f'save({label}, charset={charset})', save, mc, charset, initial, expect, mbytes)
+            _judge(ctx, ai, outs, f'save({label}, charset={charset})', save, mc, charset, afters, expect, mbytes)
     # the public entry points: save(filename=...) / save(file=...) and MidiFile(filename=...) / MidiFile(file=...) - everything they
     # do to messages (not only the part inside _save/_load) happens under the file's charset
     o, psave = ctx.p.lookup_method(cls, 'save')
@@ -162,21 +166,35 @@ def r17_scoping(ctx):
                 for how in ('filename', 'file'):
                     n += 1
 
+                    afters = []
+
                     def thunk_p(how=how, factory=factory):
                         ai.global_store.pop(KEY, None)
                         mf = _mf(ctx, ai, charset, AList([AList(factory(), 'MidiTrack')], 'list'))
                         kw = {'filename': 'out.mid'} if how == 'filename' else {'file': AFile(name='out')}
-                        ai.call_function(psave, [mf], kw)
+                        _then_observe(ctx, ai, afters, lambda: ai.call_function(psave, [mf], kw))
                         return mf
                     outs = ai.explore(thunk_p)
-                    _judge(ctx, ai, outs, f'MidiFile.save({how}=..., {label}, charset={charset})', psave, mc, charset, initial, expect, mbytes)
+                    _judge(ctx, ai, outs, f'MidiFile.save({how}=..., {label}, charset={charset})', psave, mc, charset, afters, expect, mbytes)
     ctx.floor('R17.1', n, 48)
     # nested overrides unwind level by level, also on an exception in the innermost block
     for q in ai.inlined:
         ctx.functions.add(q)
 
 
-def _judge(ctx, ai, outs, inst, fn, mc, charset, initial, expect, mbytes):
+def _then_observe(ctx, ai, afters, call):
+    """Make the call; whichever way it ends, note the charset that is in force afterwards (observed through the library's own
+    encode_string, so it does not matter where the library keeps the setting)."""
+    try:
+        r = call()
+    except AbsRaise:
+        afters.append(wire.charset_in_force(ai, ctx))
+        raise
+    afters.append(wire.charset_in_force(ai, ctx))
+    return r
+
+
+def _judge(ctx, ai, outs, inst, fn, mc, charset, afters, expect, mbytes):
     w = _mc(ctx)[1]
     cons_leak = f'{mc.qname}::restore::{"after-return" if expect == "return" else "after-exception"}'
     if len(outs) != 1 and not same_ending_length_splits(outs):
@@ -186,10 +204,10 @@ def _judge(ctx, ai, outs, inst, fn, mc, charset, initial, expect, mbytes):
         if oc.kind != expect:
             ctx.fail('R17.1', inst, ctx.where(fn), f'expected the call to {expect}, got {oc}', construct=f'{fn.qname}::outcome-kind')
             return
-        after = getattr(oc, 'globals_after', ai.global_store).get(KEY, initial)
-        ctx.require(after == 'latin1', 'R17.1', f'{inst}.restored', w,
-                    f'after the call ({oc.kind}{" " + str(oc.exc) if oc.kind == "raise" else ""}) the process-wide charset is {after!r}, not latin1: '
-                    'meta text encoded or decoded elsewhere now uses the wrong charset', construct=cons_leak)
+        wrong_after = [a for a in afters if a != 'latin1']
+        ctx.require(bool(afters) and not wrong_after, 'R17.1', f'{inst}.restored', w,
+                    f'after the call ({oc.kind}{" " + str(oc.exc) if oc.kind == "raise" else ""}) the process-wide charset is '
+                    f'{(wrong_after or ["not observed"])[0]!r}, not latin1: meta text encoded or decoded elsewhere now uses the wrong charset', construct=cons_leak)
         seen = [e[2] for e in oc.log if e[0] == 'codec']
         wrong = [c for c in seen if c != charset]
         ctx.require(not wrong, 'R17.3', f'{inst}.in-force', ctx.where(fn),
@@ -245,30 +263,76 @@ def r17_2(ctx):
                     if callers <= helpers:
                         helpers.add(r.qname)
                         changed = True
+    # where the library keeps the setting is found by looking: inside `with meta_charset(<marker>)` the marker sits in a module
+    # global or in an attribute of a module-level state object.  Whoever writes that cell must be part of the scoped override.
+    cell = _charset_cell(ctx)
     n = 0
-    for fn in ctx.p.all_functions():
-        gl = set()
-        for nd in astq.walk_shallow(fn.node):
-            if isinstance(nd, ast.Global):
-                gl.update(nd.names)
-        for t, st in astq.stores_in(fn.node):
-            if isinstance(t, ast.Name) and t.id == '_charset' and '_charset' in gl and fn.module.name == META:
-                n += 1
-                ctx.require(fn.qname in helpers, 'R17.2', f'writer({fn.name})', ctx.where(fn, st),
-                            f'{fn.name} assigns the process-wide charset outside the scoped override', construct=f'{fn.qname}::writes(_charset)')
-            if isinstance(t, ast.Attribute) and t.attr == '_charset' and not (isinstance(t.value, ast.Name) and t.value.id in ('self', 'cls')):
-                n += 1
-                ctx.fail('R17.2', f'writer({fn.name})', ctx.where(fn, st), f'{unparse(st)[:60]} rebinds the charset from outside',
-                         construct=f'{fn.qname}::writes(_charset)')
-    for mod in ctx.p.modules.values():
-        for st in mod.tree.body:
-            if isinstance(st, ast.Assign):
-                for t in st.targets:
-                    if isinstance(t, ast.Attribute) and t.attr == '_charset':
-                        ctx.fail('R17.2', f'writer({mod.name})', f'{mod.relpath}:{st.lineno}', 'module level rebind of the charset',
-                                 construct=f'{mod.relpath}::writes(_charset)')
+    if 'global' in cell:
+        cmod, cname = cell['global']
+        for fn in ctx.p.all_functions():
+            gl = set()
+            for nd in astq.walk_shallow(fn.node):
+                if isinstance(nd, ast.Global):
+                    gl.update(nd.names)
+            for t, st in astq.stores_in(fn.node):
+                if isinstance(t, ast.Name) and t.id == cname and cname in gl and fn.module.name == cmod:
+                    n += 1
+                    ctx.require(fn.qname in helpers, 'R17.2', f'writer({fn.name})', ctx.where(fn, st),
+                                f'{fn.name} assigns the process-wide charset outside the scoped override', construct=f'{fn.qname}::writes(_charset)')
+                if isinstance(t, ast.Attribute) and t.attr == cname and not (isinstance(t.value, ast.Name) and t.value.id in ('self', 'cls')):
+                    n += 1
+                    ctx.fail('R17.2', f'writer({fn.name})', ctx.where(fn, st), f'{unparse(st)[:60]} rebinds the charset from outside',
+                             construct=f'{fn.qname}::writes(_charset)')
+        for mod in ctx.p.modules.values():
+            for st in mod.tree.body:
+                if isinstance(st, ast.Assign):
+                    for t in st.targets:
+                        if isinstance(t, ast.Attribute) and t.attr == cname:
+                            ctx.fail('R17.2', f'writer({mod.name})', f'{mod.relpath}:{st.lineno}', 'module level rebind of the charset',
+                                     construct=f'{mod.relpath}::writes(_charset)')
+    elif 'attr' in cell:
+        cmod, gname, obj, attr = cell['attr']
+        scls = obj.cls
+        state_methods = {f.qname for f in scls.methods.values()} if scls is not None else set()
+        writer_methods = set()
+        for fn in ctx.p.all_functions():
+            aliases = {gname} if fn.module.name == cmod or gname in fn.module.imports else set()
+            for t, st in astq.stores_in(fn.node):
+                if isinstance(t, ast.Name) and isinstance(st, ast.Assign) and isinstance(st.value, ast.Name) and st.value.id in aliases:
+                    aliases.add(t.id)
+            for t, st in astq.stores_in(fn.node):
+                if not (isinstance(t, ast.Attribute) and t.attr == attr and isinstance(t.value, ast.Name)):
+                    continue
+                if t.value.id in aliases:
+                    n += 1
+                    ctx.require(fn.qname in helpers, 'R17.2', f'writer({fn.name})', ctx.where(fn, st),
+                                f'{fn.name} assigns the process-wide charset ({gname}.{attr}) outside the scoped override',
+                                construct=f'{fn.qname}::writes(_charset)')
+                elif t.value.id == 'self' and fn.qname in state_methods and fn.name != '__init__':
+                    writer_methods.add(fn.name)
+        for mname in sorted(writer_methods):
+            # a method of the state object that sets the charset: only the scoped override (and the object itself) may call it
+            for fn in ctx.p.all_functions():
+                for c in astq.calls(fn.node):
+                    if isinstance(c.func, ast.Attribute) and c.func.attr == mname:
+                        n += 1
+                        ctx.require(fn.qname in helpers or fn.qname in state_methods, 'R17.2', f'writer({fn.name} via {mname})', ctx.where(fn, c),
+                                    f'{fn.name} sets the process-wide charset through {mname}() outside the scoped override',
+                                    construct=f'{fn.qname}::writes(_charset)')
+        for mod in ctx.p.modules.values():
+            for st in mod.tree.body:
+                if isinstance(st, ast.Assign):
+                    for t in st.targets:
+                        if isinstance(t, ast.Attribute) and t.attr == attr and isinstance(t.value, ast.Name) and t.value.id == gname:
+                            ctx.fail('R17.2', f'writer({mod.name})', f'{mod.relpath}:{st.lineno}', 'module level rebind of the charset',
+                                     construct=f'{mod.relpath}::writes(_charset)')
+    else:
+        ctx.fail('R17.2', 'charset-cell', mcw, 'inside `with meta_charset(x)` the value x is found neither in a module global nor in an attribute of a '
+                 'module-level object: where the charset in force is kept cannot be established', construct=f'{mc.qname}::cell')
     ctx.floor('R17.2', n, 1)
-    init = ctx.f.table(META, '_charset')
+    ai0 = make_interp(ctx)
+    outs0 = ai0.explore(lambda: wire.charset_in_force(ai0, ctx))
+    init = outs0[0].value if len(outs0) == 1 and outs0[0].kind == 'return' else outs0
     ctx.require(init == 'latin1', 'R17.2', '_charset.initial', f'{m.relpath}:1 _charset', f'initial charset is {init!r}, documented default latin1',
                 construct=f'{m.relpath}::_charset')
     cls = ctx.p.cls(MF, 'MidiFile')
@@ -280,6 +344,27 @@ def r17_2(ctx):
     outs = ai.explore(lambda: ai.apply(ClassRef(cls), [], {'charset': 'cp1252'}, None))
     ok = len(outs) == 1 and outs[0].kind == 'return' and outs[0].value.attrs.get('charset') == 'cp1252'
     ctx.require(ok, 'R17.2', 'MidiFile(charset=).stored', f'{cls.module.relpath}:{cls.node.lineno} MidiFile', f'{outs}', construct=f'{cls.qname}::charset-stored')
+
+
+def _charset_cell(ctx):
+    """Where the charset in force lives: {'global': (module, name)} or {'attr': (module, global name, object, attribute)}."""
+    ai = make_interp(ctx)
+    found = {}
+    marker = '__charset_cell_probe__'
+
+    def body():
+        for key, v in ai.global_store.items():
+            if v == marker:
+                found['global'] = key
+        for mn, gn, obj in ctx.f.global_objects():
+            for a_, v in obj.attrs.items():
+                if isinstance(v, str) and v == marker:
+                    found['attr'] = (mn, gn, obj, a_)
+        return None
+    ai.global_store.pop(KEY, None)
+    ai.explore(lambda: wire.with_charset(ai, ctx, marker, body))
+    ai.global_store.pop(KEY, None)
+    return found
 
 
 class TextProbe:
@@ -323,9 +408,9 @@ def r17_4(ctx):
             payload = AList([SeqVar('payload', 255)], 'list')
 
             def thunk():
-                ai.global_store[KEY] = cs
+                ai.global_store.pop(KEY, None)
                 arg = TextProbe() if kind == 'encode' else payload
-                return ai.call_function(fn, [arg], {})
+                return wire.with_charset(ai, ctx, cs, lambda: ai.call_function(fn, [arg], {}))
             outs = ai.explore(thunk)
             ai.global_store.pop(KEY, None)
             inst = f'{fn.name}(charset in force = {cs})'
@@ -365,18 +450,19 @@ def r17_nested(ctx):
     """Nested overrides unwind level by level."""
     ai = make_interp(ctx)
     mc, mcw, mcfns = _mc(ctx)
+    ai.builtin_summaries['__charset_now__'] = lambda i_, a_, k_, n_: wire.charset_in_force(i_, ctx)
     src = ("def probe(fail):\n"
            "    with meta_charset('outer'):\n"
-           "        a = _charset\n"
+           "        a = __charset_now__()\n"
            "        try:\n"
            "            with meta_charset('inner'):\n"
-           "                b = _charset\n"
+           "                b = __charset_now__()\n"
            "                if fail:\n"
            "                    raise KeyError('x')\n"
            "        except KeyError:\n"
            "            pass\n"
-           "        c = _charset\n"
-           "    return a, b, c, _charset\n")
+           "        c = __charset_now__()\n"
+           "    return a, b, c, __charset_now__()\n")
     tree = ast.parse(src)
     fn_node = tree.body[0]
     m = ctx.p.module(META)
@@ -414,14 +500,18 @@ def r17_text_specs(ctx):
             T = StrSym('T')
             holder = {}
 
-            def thunk():
-                ai.global_store[KEY] = charset
+            def body():
                 m = wire.make_meta(ai, ctx, type_, {attr: T}, 0)
                 enc = ai.call_function(mbytes, [m], {})
                 holder['n_enc'] = [e for e in EVENT_LOG if e[0] == 'codec']
                 dec = ai.call_function(bm, [tb, AList([T.bytes], 'list'), 0], {})
                 holder['all'] = [e for e in EVENT_LOG if e[0] == 'codec']
-                return enc, dec, holder['n_enc'], holder['all']
+                return AList([enc, dec, holder['n_enc'], holder['all']], 'tuple')
+
+            def thunk():
+                ai.global_store.pop(KEY, None)
+                r = wire.with_charset(ai, ctx, charset, body)
+                return tuple(r.items) if isinstance(r, AList) else r
             outs = ai.explore(thunk)
             ai.global_store.pop(KEY, None)
             inst = f'{type_} under {charset}'
@@ -456,16 +546,19 @@ def r17_faults(ctx):
     of the global and the try/finally that restores it."""
     ai = make_interp(ctx)
     mc, mcw, mcfns = _mc(ctx)
+    ai.builtin_summaries['__charset_now__'] = lambda i_, a_, k_, n_: wire.charset_in_force(i_, ctx)
     src = ("def probe():\n"
            "    with meta_charset('utf-16'):\n"
            "        pass\n"
-           "    return _charset\n")
+           "    return __charset_now__()\n")
     tree = ast.parse(src)
     from ..model import FuncInfo as FI, add_parents
     add_parents(tree)
     probe = FI('probe', ctx.p.module(META), tree.body[0])
 
     def run(k):
+        seen_after = []
+
         def thunk():
             ai.global_store.pop(KEY, None)
             ai.ext_calls = 0
@@ -475,8 +568,12 @@ def r17_faults(ctx):
                 return ai.call_function(probe, [], {})
             finally:
                 ai.inject_fault_at = None
+                names_ = list(ai.ext_call_names)
+                seen_after.append(wire.charset_in_force(ai, ctx))
+                ai.ext_call_names = names_
         outs = ai.explore(thunk)
-        return outs, list(getattr(ai, 'ext_call_names', [])), ai.global_store.get(KEY, 'latin1')
+        bad = [a for a in seen_after if a != 'latin1']
+        return outs, list(getattr(ai, 'ext_call_names', [])), (bad[0] if bad else 'latin1')
     outs, names, after = run(None)
     ok = len(outs) == 1 and outs[0].kind == 'return' and outs[0].value == 'latin1'
     ctx.require(ok, 'R17.1', 'with meta_charset(X): pass', mcw, f'{outs}; charset afterwards must be latin1',
